@@ -249,7 +249,32 @@ fn host_conn(name: String, mut s: TcpStream) {
                     "chunks": p.chunk_sizes.len()}));
                 total_bytes += p.total_len;
                 buf.drain(..p.total_len);
-                let plan = PLANS.lock().unwrap().get(&id).cloned().unwrap_or(Plan {
+                // plan lookup: by request id, then "METHOD path", then the longest "METHOD prefix*", then ""
+                let plan_found = {
+                    let plans = PLANS.lock().unwrap();
+                    let path_only = p.target.split('?').next().unwrap_or("").to_string();
+                    let exact = format!("{} {}", p.method, path_only);
+                    let mut hit = if !id.is_empty() { plans.get(&id).cloned() } else { None };
+                    if hit.is_none() {
+                        hit = plans.get(&exact).cloned();
+                    }
+                    if hit.is_none() {
+                        let mut best: Option<(usize, Plan)> = None;
+                        for (k, v) in plans.iter() {
+                            if let Some(pre) = k.strip_suffix('*') {
+                                if exact.starts_with(pre) && best.as_ref().map(|b| b.0 < pre.len()).unwrap_or(true) {
+                                    best = Some((pre.len(), v.clone()));
+                                }
+                            }
+                        }
+                        hit = best.map(|b| b.1);
+                    }
+                    if hit.is_none() && id.is_empty() {
+                        hit = plans.get("").cloned();
+                    }
+                    hit
+                };
+                let plan = plan_found.unwrap_or(Plan {
                     status: 200,
                     headers: vec![("content-type".to_string(), "text/plain".to_string())],
                     body: format!("ok-{}", id).into_bytes(),
@@ -708,6 +733,38 @@ impl Rig {
                     std::thread::sleep(Duration::from_micros(200));
                 }
                 verif::trace::emit(json!({"e": "Arrived", "label": label, "n": verif::sched::arrived(label), "want": n}));
+            }
+            "start_key_keeper" => {
+                // the real key keeper task against the mock WireServer (168.63.129.16:80)
+                let kk = crate::key_keeper::KeyKeeper::new(
+                    "http://168.63.129.16:80/".parse().unwrap(),
+                    crate::common::config::get_keys_dir(),
+                    crate::common::config::get_logs_dir(),
+                    Duration::from_millis(st["interval_ms"].as_u64().unwrap_or(50)),
+                    &self.shared,
+                );
+                self.rt.spawn(async move { kk.poll_secure_channel_status().await });
+                verif::trace::emit(json!({"e": "KeyKeeperStarted"}));
+            }
+            "start_event_reader" => {
+                // the real telemetry event reader (fetches VM metadata through the agent's own signed calls)
+                let reader = crate::telemetry::event_reader::EventReader::new(
+                    crate::common::config::get_events_dir(),
+                    false,
+                    self.shared.get_cancellation_token(),
+                    self.shared.get_key_keeper_shared_state(),
+                    self.shared.get_telemetry_shared_state(),
+                    self.shared.get_agent_status_shared_state(),
+                );
+                let ms = st["interval_ms"].as_u64().unwrap_or(100);
+                self.rt.spawn(async move { reader.start(Some(Duration::from_millis(ms)), None, None).await });
+                verif::trace::emit(json!({"e": "EventReaderStarted"}));
+            }
+            "key_state" => {
+                let kk = self.shared.get_key_keeper_shared_state();
+                let guid = self.rt.block_on(kk.get_current_key_guid()).unwrap_or(None);
+                let state = self.rt.block_on(kk.get_current_secure_channel_state()).unwrap_or_default();
+                verif::trace::emit(json!({"e": "KeyState", "guid": guid, "state": state, "tag": st["tag"]}));
             }
             "set_plan" => {
                 // response plan for a request id ("" = requests that carry no x-verif-id: the agent's own calls)
